@@ -396,6 +396,14 @@ def run(rep):
                 (cand_t if pq.call_named(x, ".DataFrame") else cand_d).append(kw)
             if len(x[2]) >= 2:
                 altered_data.append((x[1], x[2][1]))
+        # ... and nothing is applied to the Series / DataFrame after it is built (clip, abs, round, fillna, arithmetic ...)
+        POST = (".clip", ".abs", ".round", ".fillna", ".mask", ".where", ".replace", ".apply", ".map", ".transform", ".cumsum", ".sort_values",
+                ".mul", ".div", ".add", ".sub", ".drop", ".iloc", ".loc", ".head", ".tail")
+        if isinstance(p_.value, tuple):
+            for y in pq.find(p_.value, lambda z: (z[0] == 'call' and z[1] in POST and len(z[2]) >= 1 and
+                                                   pq.mentions(z[2][0], lambda w: pq.call_named(w, ".Series") or pq.call_named(w, ".DataFrame"))) or
+                             (z[0] in ('add', 'sub', 'mul', 'div', 'neg') and pq.mentions(z, lambda w: pq.call_named(w, ".Series") or pq.call_named(w, ".DataFrame")))):
+                altered_data.append(("returned value", ('call', 'clip', (y,)) if y[0] == 'call' else y))
         for cands, n_ in ((cand_t, 7), (cand_d, 5)):
             for c_ in cands:
                 f_ = pfold.fold(c_, BASE)
